@@ -199,6 +199,9 @@ class Ctx:
                 cmd += ["-depth", str(depth)]
         cmd += list(extra) + [module]
         e = dict(os.environ)
+        # the tlc wrapper takes 25% of RAM as heap; several checks run side by side
+        if "JAVA_TOOL_OPTIONS" not in e:
+            e["JAVA_TOOL_OPTIONS"] = "-Xmx%s" % (heap or ("6g" if self.quick else "12g"))
         if env:
             e.update(env)
         t = time.time()
